@@ -2,6 +2,8 @@
 CHECKS = {
     "C01": {"scenarios": ["c01"], "quick_budget_s": 60, "thorough_budget_s": 900,
             "real": ["src/tbb scheduler: arena, arena_slot, mailbox, task_stream, task_dispatcher, threading_control, market, private_server (RML), task_group, parallel_for, partitioners"]},
+    "C09": {"scenarios": ["c09"], "quick_budget_s": 45, "thorough_budget_s": 600,
+            "real": ["include/oneapi/tbb/concurrent_queue.h, detail/_concurrent_queue_base.h, src/tbb/concurrent_bounded_queue.cpp, concurrent_monitor"]},
     "C08": {"scenarios": ["c08"], "quick_budget_s": 45, "thorough_budget_s": 600,
             "real": ["include/oneapi/tbb/{spin,queuing,}_mutex.h, {spin_rw,queuing_rw,rw}_mutex.h, src/tbb/queuing_rw_mutex.cpp, rtm_mutex.cpp, rtm_rw_mutex.cpp (fallback paths)"],
             "assumptions": ["speculative (RTM) variants run their non-transactional fallback paths only"]},
@@ -31,6 +33,15 @@ ASSUMPTIONS = [
 NOT_APPLICABLE = {}
 
 MANIFEST_TEXT = {
+    "C01": {"level": "Seeded search over schedules of the REAL scheduler (arena, deque, mailbox, task streams, dispatcher, RML workers as simulated threads) running generated task trees "
+                     "(task_group run/run_and_wait/cancel, tasks submitting into their own group, parallel_for with all four partitioners incl. replayed affinity, nested task_arena::execute incl. delegation, enqueue, isolate) "
+                     "on machines of 1-8 CPUs; oracle: per-unit started/finished counters, completeness and visibility at every wait return, functor construction/destruction balance, deadlock/livelock detection; "
+                     "internal assertions + ASan/UBSan live. Exploration (sampling of interleavings) is what the quantifier allows.",
+            "note": "SC at atomic-operation granularity; thread start failures, spurious wake-ups, clock jumps injected; plain data races invisible."},
+    "C09": {"level": "Seeded search over schedules of 2-4 simulated threads issuing push/emplace/try_push/pop/try_pop on the real concurrent_queue / concurrent_bounded_queue (3 element size classes, counters pre-advanced to page boundaries, capacities 1-4); "
+                     "oracle: Wing-Gong-Lowe linearizability check against a sequential (bounded, blocking) FIFO model, conservation after a final drain, judge-at-quiescence for blocked callers, then abort; "
+                     "fault-free runs are judged strictly; runs with a throwing constructor / failing page allocator / concurrent abort() are kept apart and their failures are attributed to the recorded known findings.",
+            "note": "histories are capped at 20 concurrent operations + drain; in the abort/throw/alloc modes hangs and history failures are attributed to the known findings by their mode tag, so a new defect that only shows in those modes could be masked."},
     "C08": {"level": "Seeded search over schedules (and x86-TSO store-buffer delays) of 2-4 simulated threads issuing legal lock/try/upgrade/downgrade sequences against the real mutex code of all 8 lock types; "
                      "oracles: holder bookkeeping (mutual exclusion, reader/writer), payload visibility, upgrade truth, try never blocks, queue order by watching the tail word, deadlock/livelock detection for lost hand-offs; "
                      "internal assertions, ASan and UBSan are live in the quick flavour. Exploration is the right level: the property quantifies over interleavings, which are sampled, not enumerated.",
